@@ -377,11 +377,11 @@ Definition ML_d : mlogic :=
      ml_modal := true; ml_quant := true; ml_many := false; ml_classical := true;
      ml_access := AKSerial; ml_genq := fun _ => g_best; ml_genm := fun _ => g_best |}.
 
-(* D: finish() adds the world 1 and the pairs 0R1, 1R1 to R, but no frame: the export
-   lists neither the world 1 nor the pair (1,1) although value_of uses both *)
-Theorem export_access_refuted :
+(* D BEFORE fix 422cec3 (run_old): finish() adds the world 1 and the pairs 0R1, 1R1 to R, but
+   no frame: the export lists neither the world 1 nor the pair (1,1) although value_of uses both *)
+Theorem export_access_old_refuted :
   exists L st,
-    run L [] (fun _ => []) [OAtomic 0 0 VT] = Some st /\ ml_modal L = true /\
+    run_old L [] (fun _ => []) [OAtomic 0 0 VT] = Some st /\ ml_modal L = true /\
     In (1, 1) (ap (s_R st)) /\ In 1 (aw (s_R st)) /\
     ~ In (1, 1) (x_access (export L st)) /\ ~ In 1 (x_worlds (export L st)) /\
     value_of L st (SMod Possibility (SMod Possibility (SAtom 0))) 0 = Val VF.
@@ -389,3 +389,12 @@ Proof.
   exists ML_d. eexists. split; [vm_compute; reflexivity|].
   repeat split; try (vm_compute; reflexivity); vm_compute; intuition congruence.
 Qed.
+
+(* the same history with finish() as coded now: the successor world has a frame, is exported
+   together with its reflexive pair, and the atom known at world 0 is assigned there *)
+Example export_access_serial_now :
+  exists st,
+    run ML_d [] (fun _ => []) [OAtomic 0 0 VT] = Some st /\
+    x_worlds (export ML_d st) = [0; 1] /\ x_access (export ML_d st) = [(0, 1); (1, 1)] /\
+    get_atom (s_atoms st) 1 0 = Some VF.
+Proof. eexists. split; [vm_compute; reflexivity|]. repeat split; vm_compute; reflexivity. Qed.
